@@ -57,6 +57,7 @@ f741aba:C11
 63af0f8:C11
 9944225:C08
 83acbbb:C04
+3e38392:C11
 "
 if [ -n "$(git -C /repo status --porcelain)" ]; then echo "/repo is not clean"; exit 2; fi
 mkdir -p selftest
